@@ -78,6 +78,7 @@ def tame_ints(st, limit=300):
     return st
 
 
+<<<<<<< HEAD
 VEC_KEY = {"BOOLVECTOR": "bvec", "INTVECTOR": "ivec", "FLOATVECTOR": "fvec"}
 # small pool with duplicates, both zeros, infinities and NaN: exercises sort stability and unordered comparisons
 F32_SORT = [0x00000000, 0x80000000, fbits(1.0), fbits(1.0), fbits(-1.0), fbits(2.5), 0x7f800000, 0xff800000, 0x7fc00000, fbits(0.5)]
@@ -124,6 +125,59 @@ def step_case(rng, name, names, safe_names, profile=None):
         st = shape_vector_case(rng, name, st)
     if name == "FLOATVECTOR.SINE":
         st["int"] = [rng.randrange(-3 if SINE_NEGATIVE else 0, 13) for _ in st["int"]]
+=======
+def rand_id_vector(rng, maxlen=8):
+    """stack ids 1..12 (repeats likely) with a sprinkling of ids that designate no stack"""
+    def one():
+        r = rng.random()
+        if r < 0.80: return rng.randrange(1, 13)
+        if r < 0.90: return rng.choice([0, -1, 13, 14, 100])
+        return rand_i32(rng)
+    return [one() for _ in range(rng.randrange(0, maxlen + 1))]
+
+
+def rand_record(rng, names, depth=2):
+    """a record as LIST.ADD builds it: a list of literals / names / code, now and then nested"""
+    def field():
+        k = rng.randrange(12)
+        if k < 3: return Z(rng.choice([rng.randrange(-5, 6), rand_i32(rng)]))
+        if k < 5: return B(rng.random() < 0.5)
+        if k < 7: return F(rand_f32(rng))
+        if k == 7: return rng.choice([IV([rng.randrange(0, 13) for _ in range(rng.randrange(0, 4))]),
+                                      BV([rng.random() < 0.5 for _ in range(rng.randrange(0, 4))]),
+                                      FV([rand_f32(rng) for _ in range(rng.randrange(0, 3))])])
+        if k == 8: return N(rand_name(rng))
+        if k == 9 and depth > 0: return rand_record(rng, names, depth - 1)
+        if k == 10: return rand_atom(rng, names)
+        return Z(rng.randrange(0, 10))
+    return L(*[field() for _ in range(rng.randrange(0, 7))])
+
+
+def shape_list_state(rng, st, names, safe_names):
+    """operands that make LIST.* cases meaningful: an id vector on top of INTVECTOR, records on CODE,
+    position / n on INTEGER near the boundaries of the CODE stack and of the record"""
+    if rng.random() < 0.9:
+        st["ivec"] = [rand_id_vector(rng)] + st["ivec"]
+    st["code"] = [rand_record(rng, safe_names) if rng.random() < 0.8 else rand_item(rng, safe_names)
+                  for _ in range(rng.randrange(0, 6))]
+    depth = len(st["code"])
+    pos = lambda: rng.choice([rng.randrange(-2, depth + 3), rng.randrange(-2, depth + 3), rng.choice(I32)])
+    n = lambda: rng.choice([rng.randrange(-2, 8), rng.randrange(0, 4), rng.choice(I32)])
+    r = rng.random()
+    if r < 0.85: st["int"] = [n(), pos()] + st["int"]       # top: n (or the position for GET/SET/REMOVE)
+    elif r < 0.95: st["int"] = [pos()]
+    else: st["int"] = []
+    if rng.random() < 0.3:                                    # some source stacks empty / short
+        for k in rng.sample(["bool", "float", "name", "bvec", "fvec", "exec"], rng.randrange(1, 4)):
+            st[k] = st[k][:rng.randrange(0, 2)]
+    return st
+
+
+def step_case(rng, name, names, safe_names, profile=None):
+    st = rand_state(rng, names, safe_names)
+    if name.startswith("LIST.") and name not in ALLOCATING and rng.random() < 0.85:
+        st = shape_list_state(rng, st, names, safe_names)
+>>>>>>> listio
     if name in ALLOCATING:
         st = tame_ints(st)
         st["float"] = [fbits(rng.choice([0.0, 0.5, 1.0, 1.5, 2.0, 3.0])) for _ in st["float"]]
